@@ -630,6 +630,37 @@ theorem readers_observe_announced_prefix (w r : Bool) (l : List (Bool × Nat × 
     · right; exact ⟨s.dur, hd, h.1.i7a⟩
   · rw [run_append, run_append]; rfl
 
+/-! ### the commit timer and the durability modes -/
+
+/-- **dbCommittedOffset ≤ binlogDurableOffset in every mode that has a binlog** — WaitCommit or NoWaitCommit, master or
+    replica, after every history: the offset stored in the COMMITted database (what a reader and a crash image see) is
+    at most the offset the binlog has fsynced and announced, and is covered by a Commit already delivered. SQLite is
+    committed only by: the WaitCommit timer (after `binlogWaitDBSync`), a must-commit-now write in NoWaitCommit (parked
+    until the binlog announces its offset), the delayed commit of `Engine.Commit` (offset ≥ engine offset) and Close
+    (waits for the binlog) — never by a timer in NoWaitCommit mode, which does not exist (`nowait_has_no_timer`). -/
+theorem committed_offset_le_durable (w r : Bool) (l : List (Bool × Nat × Nat)) (hl : ∀ x ∈ l, 0 < x.2.2) (ops : List Op) :
+    let s := run (fresh w r l) ops
+    s.com.off ≤ s.dur ∧ s.dur ≤ s.len ∧ (s.com.off = 0 ∨ ∃ k ∈ s.ann, s.com.off ≤ k) := by
+  intro s
+  have hp := db_is_prefix w r l hl ops
+  exact ⟨hp.2.2.2.2.1, hp.2.2.2.2.2, (readers_observe_announced_prefix w r l hl ops []).2.2.1⟩
+
+/-- in NoWaitCommit mode a tick of the CommitEvery timer changes nothing (OpenEngine does not start txLoop there) -/
+theorem nowait_has_no_timer (s : St) (h : s.wait = false) : (step s .tx).1 = s := by
+  simp only [step, txStep, h]
+  split
+  · rfl
+  · simp
+
+/-- **a timer that commits without waiting breaks the invariant** (seeded change C17-r3-2, `txStepNoWaitTimer`) — a
+    NoWaitCommit master, one write whose event is still only in the binlog's buffer (announced prefix 24, event ends at
+    36): the real code's tick does nothing; the seeded timer COMMITs, readers and a crash image then hold event 1 with
+    offset 36 > 24 = everything the binlog has made durable. -/
+theorem timer_without_wait_breaks_invariant :
+    let s := run (fresh false false [(false, 0, 24)]) [.dSkip 24, .commit 24, .ready, .doOp 1 12 0 .ok]
+    s.dur = 24 ∧ s.tx = ⟨[1], 36⟩ ∧ (step s .tx).1.com = ⟨[], 0⟩ ∧
+    (txStepNoWaitTimer s).1.com = ⟨[1], 36⟩ ∧ ¬ ((txStepNoWaitTimer s).1.com.off ≤ (txStepNoWaitTimer s).1.dur) := by decide
+
 /-! ### the "skip already applied bytes" branch of binlog_engine.go `apply` -/
 
 /-- **apply_skip_branch_unreachable** — `impl.apply` reads the offset row inside the write transaction (`tx.off`) and takes
